@@ -168,6 +168,26 @@ def pmap(fn, tasks, nworkers=None):
     return results
 
 
+def safe_task(fn, prop, tier, seed):
+    """wrap run_task(task): an unexpected exception while a task drives the library (never seen on the unchanged
+    tree) is recorded as a violation of that task instead of breaking the whole check. Broken still propagates."""
+    def run(indexed):
+        idx, task = indexed
+        try:
+            return fn(task)
+        except Broken:
+            raise
+        except Exception as ex:
+            acc = Acc()
+            tb = traceback.format_exc().strip().splitlines()
+            site = [l.strip() for l in tb if l.strip().startswith('File')][-1:] or ['?']
+            acc.viol('%s.unexpected_exception.%s' % (prop.lower(), type(ex).__name__),
+                     {'task_index': idx, 'tier': tier, 'seed': seed}, repr(ex),
+                     'the task completes (as it does on the unchanged tree)', site[0][:200])
+            return acc
+    return run
+
+
 def spread(items, nchunks):
     """Deterministic round-robin split of a list into <= nchunks non-empty chunks."""
     items = list(items)
